@@ -12,7 +12,8 @@ func gen(seed int64, tier string, idx int) *pipe.Scenario {
 	g := pipe.NewGen(seed, idx)
 	o := pipe.GenOpts{
 		MaxSources: 3, MaxDests: 3, MaxProcs: 2, MinRecords: 20, MaxRecords: 200,
-		AllowFilter: true, AllowWorkers: true, AllowCond: true, AllowMulti: true, AllowCut: true,
+		AllowFilter: true, AllowWorkers: true, AllowCond: true, AllowMulti: true, // no cut-short: combined with a split before the fan-out the engine refuses the batch (documented), the pipeline would not be healthy
+
 		DLQWindows: []int{0}, Healthy: true,
 	}
 	sc := g.Scenario(o)
